@@ -279,6 +279,12 @@ func monC07(w *World) {
 				w.violate("C07", "C07/highqc-unbacked", nd, "%s adopted a high QC for view %d that no quorum signed: %s", nd, qc, why)
 			}
 		}
+		if tc > s.tc {
+			// so must the new high TC
+			if ok, why := w.orc.tcBacked(nd.states.HighTC()); !ok {
+				w.violate("C07", "C07/hightc-unbacked", nd, "%s adopted a high TC for view %d that no quorum signed: %s", nd, tc, why)
+			}
+		}
 		s.view, s.qc, s.tc, s.committed = view, qc, tc, cm
 	})
 	w.hooks.onViewChg = append(w.hooks.onViewChg, func(nd *Node, ev hotstuff.ViewChangeEvent) {
